@@ -28,7 +28,7 @@ use crate::runner::run_cases;
 pub const SPEC: PropSpec = PropSpec {
     id: "C18",
     level: "exploration",
-    rule: "(1) sequences of 1-200 lines from a grammar (every method x {well-typed, each parameter missing, every JSON type in each slot, extremes -1/0/999/1000/1001/59999/60000/60001/2^63/2^64-1/1e400/1.5}, ids of every JSON type, jsonrpc versions, extra and duplicate keys, notifications) plus byte-level mutations of valid lines, arbitrary UTF-8, whitespace, 200-deep nesting and 100 kB lines; each line goes through dispatch, dispatch_async(no context) and dispatch_async(with a subscription context) on three DynamicConfig instances kept in lock-step; reference model: unparsable or not an object with string jsonrpc + string method => exactly one response, error -32700, id null; version != \"2.0\" => -32600 echoing the id (nothing for a notification); unknown method -32601; bad params -32602; otherwise a result; responses carry jsonrpc \"2.0\", the request's id (JSON-equal) and exactly one of result / error; no id => no response but the effect is applied; after every line snapshot() and a following get_status equal the configuration model (timeout clamped to 1000..60000 and echoed); the three entry points answer identically except for the subscription methods. (2) 2-8 threads: setters with unique values through dispatch, readers taking snapshots: every read is the initial or a written value, timeout always within [1000,60000], a reader never sees one writer's values go backwards, final state = last write per single-writer field. (3) process lane: the production spawn_stdin_listener and control_socket::spawn in a child process fed raw byte lines (incl. non-UTF-8); stdout and the socket are held to the same oracle and a later valid request must still be answered; a further socket connection that holds a stats subscription (the process publishes every millisecond) sends each request in two writes a few ms apart, so pushes interleave with half-read lines. Non-trivial = every line; distinct = distinct (method class, params class, id class, version class, expected outcome) tuples and distinct line hashes for mutated input. E6 live lane (12 sessions quick / 96 thorough; DESIGN.md 9.1): on a live production sender process carrying client traffic over 2-4 uplinks, set_conn_timeout (start-up value 6000 ms -> 1500 / 2000 ms), set_mode (toggled) and set_quality are sent on the control connection that also receives the stats pushes; each must be answered with the applied value; the mode must show in every stats push from 2 ticks after the acknowledgement; then one uplink is black-holed and its socket must be re-opened within ceil(new timeout) + 3 sender ticks (the start-up value would need >= 6) and never earlier than the new timeout after the receiver side's last datagram.",
+    rule: "(1) sequences of 1-200 lines from a grammar (every method x {well-typed, each parameter missing, every JSON type in each slot, extremes -1/0/999/1000/1001/59999/60000/60001/2^63/2^64-1/1e400/1.5}, ids of every JSON type, jsonrpc versions, extra and duplicate keys, notifications) plus byte-level mutations of valid lines, arbitrary UTF-8, whitespace, 200-deep nesting and 100 kB lines; each line goes through dispatch, dispatch_async(no context) and dispatch_async(with a subscription context) on three DynamicConfig instances kept in lock-step; reference model: unparsable or not an object with string jsonrpc + string method => exactly one response, error -32700, id null; version != \"2.0\" => -32600 echoing the id (nothing for a notification); unknown method -32601; bad params -32602; otherwise a result; responses carry jsonrpc \"2.0\", the request's id (JSON-equal) and exactly one of result / error; no id => no response but the effect is applied; after every line snapshot() and a following get_status equal the configuration model (timeout clamped to 1000..60000 and echoed); the three entry points answer identically except for the subscription methods. (2) 2-8 threads: setters with unique values through dispatch, readers taking snapshots: every read is the initial or a written value, timeout always within [1000,60000], a reader never sees one writer's values go backwards, final state = last write per single-writer field. (3) process lane: the production spawn_stdin_listener and control_socket::spawn in a child process fed raw byte lines (incl. non-UTF-8); stdout and the socket are held to the same oracle and a later valid request must still be answered; a further socket connection that holds a stats subscription (the process publishes every millisecond) sends each request in two writes a few ms apart, so pushes interleave with half-read lines. Non-trivial = every line; distinct = distinct (method class, params class, id class, version class, expected outcome) tuples and distinct line hashes for mutated input. E6 live lane (12 sessions quick / 96 thorough; DESIGN.md 9.1): on a live production sender process carrying client traffic over 2-4 uplinks (start-up timeout 10000 ms), set_conn_timeout (2500 / 3000 ms), set_mode (toggled), set_quality and set_stall_deselect (on / off, before / after the timeout) are sent on the control connection that also receives the stats pushes; each must be answered with the applied value; the mode must show in every stats push from 2 ticks after the acknowledgement; then the uplink carrying most of the traffic is black-holed and must show as timed out in the sender's own stats within ceil(new timeout) + 1 sender ticks (the start-up value or the built-in 5000 ms default would need >= 5); its socket is never re-opened earlier than the new timeout after the receiver side's last datagram.",
     assumptions: &[
         "a top-level JSON array is an unspecified shape (serde accepts positional structs): either outcome is accepted",
         "\"id\": null is treated like an absent id (serde maps it to None); the property does not speak of it",
